@@ -126,6 +126,14 @@ def run_cases():
             return _run(pkg, [Q.me().fields(U.meta_field(key="other").alias("a"), bio)])
         case("builder-object-reused-in-a-later-operation", None, ["other", "bio"], payload_fn=reused)
 
+        def rebuilt():
+            mk_ = lambda: [Q.users(ids=["1"], first=2).fields(U.id, U.posts(first=3).fields(P.id)), Q.user(id="9").fields(U.id)]   # noqa: E731
+            first = _run(pkg, mk_(), name="Again")
+            second = _run(pkg, mk_(), name="Again")          # the same expression, new objects, a new client
+            return second if first == second else dict(second, query="DIFFERS FROM THE FIRST BUILD: " + second["query"])
+        case("history-free-same-expression-built-twice-sends-the-same-request", None, [["1"], 2, 3, "9"], payload_fn=rebuilt,
+             extra=lambda p: ["the same expression produced a different request after an earlier operation"] if p["query"].startswith("DIFFERS") else [])
+
         def history():
             first = _run(pkg, [Q.me().fields(U.id.alias("pid"))])
             second = _run(pkg, [Q.me().fields(U.id)])
